@@ -1,16 +1,22 @@
-"""Inlining of NEW private helpers (stated bound: one level, statement-level calls only).
+"""Inlining of NEW private helpers (stated bound: one level per pass, two passes).
 
-A behaviour-preserving "extract method" refactoring moves a block of an anchored method into a new private method of the
-same class. The rules speak about the anchored methods, so before analysis every private method that is not part of the
-reference tree (sa/anchors.txt: the qualified names of the functions that existed when the rules were written) and that is
-only ever called as `self._h(..)` at statement level from methods of its own class is substituted for its call sites, and
-its definition is dropped. Anything else (recursive helpers, helpers with early returns outside a loop-body tail position,
-helpers used as values, helpers called from other classes) is left alone and analysed as an ordinary function."""
+A behaviour-preserving "extract method / extract function" refactoring moves a block of an anchored function into a new
+private function. The rules speak about the anchored functions, so before analysis every private method or module-level
+function that is not part of the reference tree (sa/anchors.txt: the qualified names of the functions that existed when
+the rules were written) is substituted for its call sites and its definition is dropped, provided that
+  * every reference to it in its module is a call `self._h(..)` / `Cls._h(..)` (methods) or `_h(..)` (functions),
+  * each such call is the only new-helper call of its statement and does not sit inside a lambda, a comprehension, a loop
+    test or a nested function,
+  * it is not recursive and has no *args / **kwargs.
+A helper with several return statements is inlined as a synthetic single-iteration block (`while True: .. break`, marked
+`_synthetic`, ignored by loop-sensitive queries) in which `return e` becomes `<ret> = e; break`. Anything else is left
+alone and analysed as an ordinary function."""
 import ast
 import copy
 import os
 
 ANCHORS = os.path.join(os.path.dirname(os.path.abspath(__file__)), 'anchors.txt')
+_counter = [0]
 
 
 def known_functions():
@@ -25,6 +31,8 @@ def _locals(fn):
     for n in ast.walk(fn):
         if isinstance(n, ast.Name) and isinstance(n.ctx, (ast.Store, ast.Del)):
             out.add(n.id)
+        if isinstance(n, ast.ExceptHandler) and n.name:
+            out.add(n.name)
     return out
 
 
@@ -42,7 +50,10 @@ class _Rename(ast.NodeTransformer):
             node.id = self.mapping[node.id]
         return node
 
-    def visit_arg(self, node):
+    def visit_ExceptHandler(self, node):
+        if node.name in self.mapping:
+            node.name = self.mapping[node.name]
+        self.generic_visit(node)
         return node
 
 
@@ -59,32 +70,39 @@ def _returns(fn):
     return out
 
 
-def _call_of(stmt, cls_methods):
-    """(helper name, call node, kind) when stmt is `self._h(..)`, `x = self._h(..)` or `return self._h(..)`."""
-    call = None
-    kind = None
-    if isinstance(stmt, ast.Expr) and isinstance(stmt.value, ast.Call):
-        call, kind = stmt.value, 'expr'
-    elif isinstance(stmt, ast.Assign) and isinstance(stmt.value, ast.Call) and len(stmt.targets) == 1:
-        call, kind = stmt.value, 'assign'
-    elif isinstance(stmt, ast.Return) and isinstance(stmt.value, ast.Call):
-        call, kind = stmt.value, 'return'
-    if call is None:
-        return None
-    f = call.func
-    if isinstance(f, ast.Attribute) and isinstance(f.value, ast.Name) and f.value.id == 'self' and f.attr in cls_methods:
-        if any(isinstance(a, ast.Starred) for a in call.args) or any(k.arg is None for k in call.keywords):
-            return None
-        return f.attr, call, kind
-    return None
+def _helper_calls(node, names, is_method):
+    """Calls of new helpers inside `node`, each with a flag telling whether it sits in a hoistable position."""
+    out = []
+
+    def visit(n, ok):
+        if isinstance(n, ast.Call):
+            f = n.func
+            name = None
+            if is_method and isinstance(f, ast.Attribute) and isinstance(f.value, ast.Name) and f.attr in names:
+                name = f.attr
+            if not is_method and isinstance(f, ast.Name) and f.id in names:
+                name = f.id
+            if name is not None:
+                bad = any(isinstance(a, ast.Starred) for a in n.args) or any(k.arg is None for k in n.keywords)
+                out.append((name, n, ok and not bad))
+        for fld, val in ast.iter_fields(n):
+            children = val if isinstance(val, list) else [val]
+            for c in children:
+                if not isinstance(c, ast.AST):
+                    continue
+                nested = isinstance(n, (ast.Lambda, ast.ListComp, ast.SetComp, ast.DictComp, ast.GeneratorExp, ast.FunctionDef, ast.AsyncFunctionDef, ast.ClassDef))
+                # short-circuit operands after the first, and IfExp branches, are conditionally evaluated: do not hoist
+                cond = (isinstance(n, ast.BoolOp) and c is not n.values[0]) or (isinstance(n, ast.IfExp) and c is not n.test)
+                visit(c, ok and not nested and not cond)
+    visit(node, True)
+    return out
 
 
-def _bind(helper, call):
-    """[(param, arg expr)] or None."""
+def _bind(helper, call, drop_self):
     a = helper.args
     if a.vararg or a.kwarg or a.posonlyargs:
         return None
-    pos = [x.arg for x in a.args][1:]          # drop self
+    pos = [x.arg for x in a.args][1 if drop_self else 0:]
     binds = {}
     if len(call.args) > len(pos):
         return None
@@ -95,7 +113,8 @@ def _bind(helper, call):
         if k.arg not in names or k.arg in binds:
             return None
         binds[k.arg] = k.value
-    defaults = dict(zip(pos[len(pos) - len(a.defaults):], a.defaults))
+    allpos = [x.arg for x in a.args]
+    defaults = dict(zip(allpos[len(allpos) - len(a.defaults):], a.defaults))
     defaults.update({x.arg: d for x, d in zip(a.kwonlyargs, a.kw_defaults) if d is not None})
     for p in names:
         if p not in binds:
@@ -105,22 +124,22 @@ def _bind(helper, call):
     return [(p, binds[p]) for p in names]
 
 
-def _inline_body(helper, call, kind, stmt, caller_names, in_loop_tail):
-    binds = _bind(helper, call)
+def _expand(helper, call, caller_names, drop_self, want_value):
+    """-> (statements, result expression or None) or None when the helper cannot be inlined here."""
+    binds = _bind(helper, call, drop_self)
     if binds is None:
         return None
-    rets = _returns(helper)
     body = helper.body
     if body and isinstance(body[0], ast.Expr) and isinstance(body[0].value, ast.Constant) and isinstance(body[0].value.value, str):
         body = body[1:]
-    final = body[-1] if body and isinstance(body[-1], ast.Return) else None
-    early = [r for r in rets if r is not final]
-    if early and not (kind == 'expr' and in_loop_tail and all(r.value is None for r in early)):
+    if not body:
         return None
-    if kind in ('assign', 'return') and (final is None or final.value is None):
+    rets = _returns(helper)
+    final = body[-1] if isinstance(body[-1], ast.Return) else None
+    early = [r for r in rets if r is not final]
+    if want_value and (not rets or any(r.value is None for r in rets) or (final is None and not early)):
         return None
     new = [copy.deepcopy(s) for s in body]
-    # rename helper locals that clash with names of the caller (parameters bound to a same-named argument keep their name)
     same = {p for p, v in binds if isinstance(v, ast.Name) and v.id == p}
     hl = (_locals(helper) | {p for p, v in binds}) - same - {'self'}
     clash = {n: n + '__inl' for n in hl if n in caller_names}
@@ -131,29 +150,180 @@ def _inline_body(helper, call, kind, stmt, caller_names, in_loop_tail):
         if p in same:
             continue
         tgt = ast.Name(id=clash.get(p, p), ctx=ast.Store())
-        pre.append(ast.copy_location(ast.Assign(targets=[tgt], value=copy.deepcopy(v), lineno=stmt.lineno), stmt))
-    out = pre + new
-    if final is not None:
-        last = out[-1]
-        if kind == 'expr':
-            out = out[:-1] + ([ast.copy_location(ast.Expr(value=last.value), last)] if last.value is not None and any(isinstance(x, ast.Call) for x in ast.walk(last.value)) else [])
-        elif kind == 'assign':
-            out = out[:-1] + [ast.copy_location(ast.Assign(targets=copy.deepcopy(stmt.targets), value=last.value, lineno=last.lineno), last)]
-        # kind == 'return': keep the return
-    if early:
-        class _R2C(ast.NodeTransformer):
+        pre.append(ast.copy_location(ast.Assign(targets=[tgt], value=copy.deepcopy(v), lineno=call.lineno), call))
+    _counter[0] += 1
+    retname = '__inl_ret_%d' % _counter[0]
+    result = None
+    if not early:
+        if final is not None:
+            last = new[-1]
+            new = new[:-1]
+            if want_value:
+                result = last.value
+            elif last.value is not None and any(isinstance(x, ast.Call) for x in ast.walk(last.value)):
+                new.append(ast.copy_location(ast.Expr(value=last.value), last))
+        stmts = pre + new
+    else:
+        class _R(ast.NodeTransformer):
             def visit_Return(self, node):
-                return ast.copy_location(ast.Continue(), node)
+                out = []
+                if want_value:
+                    out.append(ast.copy_location(ast.Assign(targets=[ast.Name(id=retname, ctx=ast.Store())], value=node.value, lineno=node.lineno), node))
+                elif node.value is not None and any(isinstance(x, ast.Call) for x in ast.walk(node.value)):
+                    out.append(ast.copy_location(ast.Expr(value=node.value), node))
+                out.append(ast.copy_location(ast.Break(), node))
+                return out
 
             def visit_FunctionDef(self, node):
                 return node
 
             def visit_Lambda(self, node):
                 return node
-        out = [_R2C().visit(s) for s in out]
-    for s in out:
+
+            def visit_For(self, node):
+                # a return inside a loop of the helper would need a double break: give up
+                raise _GiveUp()
+
+            visit_While = visit_For
+        try:
+            if any(isinstance(x, ast.Return) for s in new for x in ast.walk(s) if isinstance(s, (ast.For, ast.While))):
+                return None
+            tr = _R()
+            body2 = []
+            for s in new:
+                if isinstance(s, (ast.For, ast.While)):
+                    body2.append(s)
+                    continue
+                r = tr.visit(s)
+                body2.extend(r if isinstance(r, list) else [r])
+        except _GiveUp:
+            return None
+        if not isinstance(body2[-1], ast.Break):
+            body2.append(ast.copy_location(ast.Break(), call))
+        loop = ast.copy_location(ast.While(test=ast.Constant(value=True), body=body2, orelse=[]), call)
+        loop._synthetic = True
+        stmts = pre + [loop]
+        if want_value:
+            result = ast.Name(id=retname, ctx=ast.Load())
+    for s in stmts:
         ast.fix_missing_locations(s)
-    return out or [ast.copy_location(ast.Pass(), stmt)]
+    return stmts, result
+
+
+class _GiveUp(Exception):
+    pass
+
+
+def _replace(stmt, call, result):
+    """Replace `call` inside stmt by the result expression (in place)."""
+    for n in ast.walk(stmt):
+        for fld, val in ast.iter_fields(n):
+            if val is call:
+                setattr(n, fld, result)
+                return True
+            if isinstance(val, list):
+                for i, c in enumerate(val):
+                    if c is call:
+                        val[i] = result
+                        return True
+    return False
+
+
+def _rewrite_function(fn, helpers, names_ok, is_method, failed):
+    caller_names = _locals(fn) | set(_params(fn))
+
+    def head_exprs(st):
+        """Expressions of a compound statement evaluated once before its body (hoistable); None for loop tests."""
+        if isinstance(st, ast.If):
+            return [st.test]
+        if isinstance(st, ast.For):
+            return [st.iter]
+        if isinstance(st, ast.With):
+            return [i.context_expr for i in st.items]
+        if isinstance(st, ast.While):
+            return None
+        return None
+
+    def rewrite(block):
+        out = []
+        for st in block:
+            if isinstance(st, (ast.FunctionDef, ast.AsyncFunctionDef, ast.ClassDef)):
+                out.append(st)
+                continue
+            compound = isinstance(st, (ast.If, ast.For, ast.While, ast.With, ast.Try))
+            scope = st if not compound else None
+            calls = []
+            if not compound:
+                calls = _helper_calls(st, names_ok, is_method)
+            else:
+                hs = head_exprs(st)
+                for h in hs or []:
+                    calls += _helper_calls(h, names_ok, is_method)
+                if isinstance(st, ast.While):
+                    for c in _helper_calls(st.test, names_ok, is_method):
+                        failed.add(c[0])
+            calls = [c for c in calls if c[0] not in failed]
+            if len(calls) == 1 and calls[0][2]:
+                name, call, _ = calls[0]
+                helper = helpers[name]
+                drop_self = is_method and not any(isinstance(d, ast.Name) and d.id == 'staticmethod' for d in helper.decorator_list)
+                whole_expr = isinstance(st, ast.Expr) and st.value is call
+                whole_ret = isinstance(st, ast.Return) and st.value is call
+                exp = _expand(helper, call, caller_names, drop_self, want_value=not whole_expr)
+                if exp is None:
+                    failed.add(name)
+                else:
+                    stmts, result = exp
+                    if whole_expr:
+                        out.extend(stmts or [ast.copy_location(ast.Pass(), st)])
+                        continue
+                    if result is None:
+                        failed.add(name)
+                    else:
+                        _replace(st, call, result)
+                        out.extend(stmts)
+            elif calls:
+                for c in calls:
+                    failed.add(c[0])
+            if compound:
+                for fld in ('body', 'orelse', 'finalbody'):
+                    blk = getattr(st, fld, None)
+                    if isinstance(blk, list) and blk and isinstance(blk[0], ast.stmt):
+                        setattr(st, fld, rewrite(blk))
+                if isinstance(st, ast.Try):
+                    for h in st.handlers:
+                        h.body = rewrite(h.body)
+            out.append(st)
+        return out
+    fn.body = rewrite(fn.body)
+
+
+def _qualifies(tree, scope_funcs, helpers, is_method):
+    """Helpers all of whose references are plain calls in hoistable positions inside scope_funcs."""
+    names = set(helpers)
+    refs = {n: 0 for n in names}
+    for n in ast.walk(tree):
+        if is_method and isinstance(n, ast.Attribute) and n.attr in refs:
+            refs[n.attr] += 1
+        if not is_method and isinstance(n, ast.Name) and n.id in refs and isinstance(n.ctx, ast.Load):
+            refs[n.id] += 1
+        if isinstance(n, ast.Constant) and isinstance(n.value, str) and n.value in refs:
+            refs[n.value] += 100
+    calls = {n: 0 for n in names}
+    for f in scope_funcs:
+        if f.name in names:
+            continue
+        for st in f.body:
+            for name, call, ok in _helper_calls(st, names, is_method):
+                calls[name] += 1 if ok else 1000
+    out = set()
+    for n in names:
+        h = helpers[n]
+        selfrefs = [x for x in ast.walk(h) if (is_method and isinstance(x, ast.Attribute) and x.attr == n) or (not is_method and isinstance(x, ast.Name) and x.id == n)]
+        calls_other = [c for st in h.body for c in _helper_calls(st, names - {n}, is_method)]
+        if refs[n] == calls[n] and calls[n] > 0 and not selfrefs and not calls_other:
+            out.add(n)
+    return out
 
 
 def inline_new_helpers(tree, modname, known):
@@ -161,70 +331,41 @@ def inline_new_helpers(tree, modname, known):
     done = []
     if known is None:
         return done
-    for cls in [n for n in tree.body if isinstance(n, ast.ClassDef)]:
-        methods = {m.name: m for m in cls.body if isinstance(m, ast.FunctionDef)}
-        new_helpers = {name: m for name, m in methods.items()
-                       if name.startswith('_') and not name.startswith('__') and ('%s:%s.%s' % (modname, cls.name, name)) not in known
-                       and not m.decorator_list}
-        if not new_helpers:
-            continue
-        # a helper qualifies when every reference to it in the module is a statement-level self-call inside this class
-        refs = {name: 0 for name in new_helpers}
-        for n in ast.walk(tree):
-            if isinstance(n, ast.Attribute) and n.attr in refs:
-                refs[n.attr] += 1
-            if isinstance(n, ast.Constant) and isinstance(n.value, str) and n.value in refs:
-                refs[n.value] += 100
-        stmt_calls = {name: 0 for name in new_helpers}
-        for m in methods.values():
-            for n in ast.walk(m):
-                for fld in ('body', 'orelse', 'finalbody'):
-                    blk = getattr(n, fld, None)
-                    if isinstance(blk, list):
-                        for st in blk:
-                            if isinstance(st, ast.stmt):
-                                c = _call_of(st, new_helpers)
-                                if c:
-                                    stmt_calls[c[0]] += 1
-        ok = {name for name in new_helpers if refs[name] == stmt_calls[name] and stmt_calls[name] > 0
-              and not any(isinstance(x, ast.Attribute) and x.attr == name for x in ast.walk(new_helpers[name]))}     # not recursive
-        # helpers calling other new helpers: inline innermost first, bounded to one level (a helper that still calls a new helper is skipped)
-        ok = {name for name in ok if not any(_call_of(st, new_helpers) for n in ast.walk(new_helpers[name])
-                                             for fld in ('body', 'orelse') for st in (getattr(n, fld, None) or []) if isinstance(st, ast.stmt))}
-        if not ok:
-            continue
-        failed = set()
-        for m in methods.values():
-            if m.name in ok:
+    for _pass in range(2):
+        # methods
+        for cls in [n for n in tree.body if isinstance(n, ast.ClassDef)]:
+            methods = {m.name: m for m in cls.body if isinstance(m, ast.FunctionDef)}
+            new = {name: m for name, m in methods.items()
+                   if name.startswith('_') and not name.startswith('__') and ('%s:%s.%s' % (modname, cls.name, name)) not in known
+                   and all(isinstance(d, ast.Name) and d.id == 'staticmethod' for d in m.decorator_list)}
+            if not new:
                 continue
-            caller_names = _locals(m) | set(_params(m))
-
-            def rewrite(block, loop_tail):
-                out = []
-                for i, st in enumerate(block):
-                    c = _call_of(st, ok)
-                    if c and c[0] not in failed:
-                        body = _inline_body(new_helpers[c[0]], c[1], c[2], st, caller_names, loop_tail and i == len(block) - 1)
-                        if body is None:
-                            failed.add(c[0])
-                            out.append(st)
-                        else:
-                            out.extend(body)
-                        continue
-                    for fld in ('body', 'orelse', 'finalbody'):
-                        blk = getattr(st, fld, None)
-                        if isinstance(blk, list) and blk and isinstance(blk[0], ast.stmt):
-                            setattr(st, fld, rewrite(blk, isinstance(st, (ast.For, ast.While)) and fld == 'body'))
-                    if isinstance(st, ast.Try):
-                        for h in st.handlers:
-                            h.body = rewrite(h.body, False)
-                    out.append(st)
-                return out
-            m.body = rewrite(m.body, False)
-        for name in sorted(ok - failed):
-            # drop the definition only when no call is left
-            left = any(isinstance(x, ast.Attribute) and x.attr == name for m in methods.values() if m.name != name for x in ast.walk(m))
-            if not left:
-                cls.body.remove(new_helpers[name])
-                done.append('%s.%s' % (cls.name, name))
+            ok = _qualifies(tree, list(methods.values()), new, True)
+            if not ok:
+                continue
+            failed = set()
+            for m in methods.values():
+                if m.name not in ok:
+                    _rewrite_function(m, new, ok, True, failed)
+            for name in sorted(ok):
+                left = any(isinstance(x, ast.Attribute) and x.attr == name for m in methods.values() if m.name != name for x in ast.walk(m))
+                if not left and new[name] in cls.body:
+                    cls.body.remove(new[name])
+                    done.append('%s.%s' % (cls.name, name))
+        # module-level functions
+        funcs = {f.name: f for f in tree.body if isinstance(f, ast.FunctionDef)}
+        new = {name: f for name, f in funcs.items() if name.startswith('_') and not name.startswith('__') and ('%s:%s' % (modname, name)) not in known and not f.decorator_list}
+        if new:
+            allf = [n for n in ast.walk(tree) if isinstance(n, ast.FunctionDef)]
+            ok = _qualifies(tree, allf, new, False)
+            if ok:
+                failed = set()
+                for f in allf:
+                    if f.name not in ok:
+                        _rewrite_function(f, new, ok, False, failed)
+                for name in sorted(ok):
+                    left = any(isinstance(x, ast.Name) and x.id == name and isinstance(x.ctx, ast.Load) for f in allf if f.name != name for x in ast.walk(f))
+                    if not left and new[name] in tree.body:
+                        tree.body.remove(new[name])
+                        done.append(name)
     return done
